@@ -380,6 +380,53 @@ package client
 //@   opt nomonitor = 1
 //@   opt partial = 1
 //@   requires c != nil && message != nil && forall(k, 0, len(c.requests), c.requests[k] != nil)
-//@   requires typeis(message.Payload, *BaseTx) ==> as(message.Payload, *BaseTx).Tx != nil
-//@   loop * invariant true
+//@   loop * invariant 0 <= _i && _i <= len(c.requests) && sinceloop(same(c.requests)) && forall(k, 0, _i, !answers(*c.requests[k], *message))
 //@   assert routed at send : [C16] answers(*request, *message)
+//@   let w = first(j, 0, old(len(c.requests)), old(answers(*c.requests[j], *message)))
+//@   ensures delivered_if_pending: [C16] 0 <= w ==> len(c.requests) == old(len(c.requests)) - 1
+//@   ensures others_undisturbed: [C16] (len(c.requests) == old(len(c.requests)) && forall(k, 0, len(c.requests), c.requests[k] == old(c.requests[k])))
+//@        || (len(c.requests) == old(len(c.requests)) - 1 && 0 <= w && w < old(len(c.requests))
+//@              && forall(k, 0, w, c.requests[k] == old(c.requests[k])) && forall(k, w, len(c.requests), c.requests[k] == old(c.requests[k+1])))
+
+// The pending list is owned by the requests goroutine: a registration is appended at the end, a
+// withdrawal removes the first occurrence of exactly that request and keeps the order of the
+// others, a response is routed by handleRequestResponse.
+// What travels on the three channels of the requests goroutine (asserted where sent, assumed
+// where received).
+//@ type request
+//@   sent v != nil
+//@ type requestResponse
+//@   sent v != nil && v.message != nil
+
+//@ func (*RemoteClient).addRequest
+//@   serves C16
+//@   opt nomonitor = 1
+//@   requires c != nil && request != nil
+//@   assert sends_own at send : [C16] request != nil
+
+//@ func (*RemoteClient).removeRequest
+//@   serves C16
+//@   opt nomonitor = 1
+//@   requires c != nil && request != nil
+//@   assert sends_own at send : [C16] request != nil
+
+//@ func (*RemoteClient).addRequestResponse
+//@   serves C16
+//@   opt nomonitor = 1
+//@   requires c != nil && response != nil && response.message != nil
+//@   assert sends_own at send : [C16] response != nil && response.message != nil
+
+//@ spec pendingOK(c) = forall(k, 0, len(c.requests), c.requests[k] != nil)
+//@ spec notBefore(c, r, n) = forall(k, 0, n, c.requests[k] != r)
+
+//@ func (*RemoteClient).runRequests
+//@   serves C16
+//@   opt nomonitor = 1
+//@   opt partial = 1
+//@   requires c != nil && pendingOK(c)
+//@   loop 0 invariant pendingOK(c)
+//@   loop 1 invariant 0 <= _i && _i <= len(c.requests) && sinceloop(same(c.requests)) && pendingOK(c) && notBefore(c, request, _i)
+//@   assert withdrawn at afterloop 1 : [C16] pendingOK(c)
+//@        && ((len(c.requests) == sinceloop(old(len(c.requests))) && notBefore(c, request, len(c.requests)) && sinceloop(forall(k, 0, len(c.requests), c.requests[k] == old(c.requests[k]))))
+//@         || (len(c.requests) == sinceloop(old(len(c.requests))) - 1 && sinceloop(old(c.requests[_i])) == request
+//@               && sinceloop(forall(k, 0, _i, c.requests[k] == old(c.requests[k]))) && sinceloop(forall(k, _i, len(c.requests), c.requests[k] == old(c.requests[k+1])))))
